@@ -185,7 +185,8 @@ func ruleSignedDeltasUseSub(c *Ctx) {
 	c.Rule(rule, "the functions that apply a size CHANGE to a ledger (Node.UpdateForeignAllocation, PartitionContext.UpdateAllocation, Application.UpdateAllocationResources, the swap confirmations) compute it with resources.Sub over all types of the old and the new size; the *OnlyExisting / *EliminateNegative variants silently drop types that only the old size had")
 	n := 0
 	for _, name := range []string{"objects.Node.UpdateForeignAllocation", "scheduler.PartitionContext.UpdateAllocation", "objects.Application.UpdateAllocationResources",
-		"scheduler.PartitionContext.removeNodeAllocations", "scheduler.PartitionContext.removeAllocation", "objects.Node.ReplaceAllocation"} {
+		"scheduler.PartitionContext.removeNodeAllocations", "scheduler.PartitionContext.removeAllocation", "objects.Node.ReplaceAllocation",
+		"objects.Node.SetCapacity", "objects.Node.SetOccupiedResource"} {
 		fn := c.MustFunc(rule, name)
 		if fn == nil {
 			continue
